@@ -1,4 +1,14 @@
 CHECKS = {
+ "C01": {
+  "text": "Regime-directed generated search (each of translation / rotation / log-scale drawn independently from a table "
+          "covering exact 0, eps- and sqrt(eps)-neighbourhoods, k*pi, beyond pi, large) plus a deterministic (theta,sigma) "
+          "lattice, both dtypes, all four algebras, against a >=60-digit mpmath closed form of the matrix exponential. "
+          "Exploration: it samples the input space densely where the code switches formula but proves nothing.",
+  "design_ref": "DESIGN.md section 3, C01",
+  "note": "Trusts mpmath (closed form self-tested against mpmath.expm on every run). Tolerances are the property's: c*eps for "
+          "rotation/scale, c*sqrt(eps) normwise (+ forward bound of the mat-vec) for translation.",
+  "technique": "property-based testing: Hypothesis regime generators + lattice enumeration against a high-precision reference",
+ },
  "C12": {
   "text": "Exhaustive enumeration of the index schedule (every L in 1..4096, both orders, in/out-of-place) with an exact "
           "non-commutative interval monoid, plus generated tensors of rank 1..4 on every axis, free-monoid words and the "
